@@ -575,14 +575,14 @@ end
 
 def toyEnv : Env :=
   { tys := #[ { kind := .named, str := "p.In", name := "In", pkgPath := some "p", isStruct := true,
-                fields := [⟨"X", 1⟩, ⟨"Y", 1⟩] },
+                fields := [⟨"X", 1, false⟩, ⟨"Y", 1, false⟩] },
               { kind := .basic, str := "int", name := "int" },
               { kind := .named, str := "p.S", name := "S", pkgPath := some "p", isStruct := true,
-                fields := [⟨"In", 0⟩, ⟨"N", 1⟩] },
+                fields := [⟨"In", 0, false⟩, ⟨"N", 1, false⟩] },
               { kind := .named, str := "p.In2", name := "In2", pkgPath := some "p", isStruct := true,
-                fields := [⟨"X", 1⟩] },
+                fields := [⟨"X", 1, false⟩] },
               { kind := .named, str := "p.R", name := "R", pkgPath := some "p", isStruct := true,
-                fields := [⟨"In", 3⟩, ⟨"N", 1⟩] } ],
+                fields := [⟨"In", 3, false⟩, ⟨"N", 1, false⟩] } ],
     assignable := fun a b => a == b, convertible := fun a b => a == b, lookup := fun _ _ => .none, pkgPath := "p", imports := [], stringTy := 1 }
 
 def toyCtx : BCtx :=
